@@ -177,6 +177,18 @@ theorem tlvParseData_rt (t : Tlv) (h : t.OK) : tlvParseData (tlvType t) (tlvData
     simp only [hl, t1, t2, t3, headD_toNat_be1 st h2]
     simp
 
+theorem mgmt_len_ne0 (t : Tlv) (h : t.OK) (h8 : tlvType t = 8) : ¬ (getU8 (tlvDataBytes t) 0 = some 0) := by
+  cases t with
+  | mgmt ast addr ins ifn oid =>
+    simp only [Tlv.OK] at h
+    have g0 : getU8 (tlvDataBytes (.mgmt ast addr ins ifn oid)) 0 = some (addr.length + 1) := by
+      simp only [tlvDataBytes]
+      rw [getU8_nil_at _ _ 0 (by simp)]
+      simp [getU8, beEnc, Nat.mod_eq_of_lt h.2.1]
+    rw [g0]; simp
+  | payload t d => simp only [Tlv.OK] at h; simp only [tlvType] at h8; omega
+  | _ => simp [tlvType] at h8
+
 /-- `next_tlv` on a serialised TLV followed by anything -/
 theorem nextTlv_rt (t : Tlv) (h : t.OK) (rest : Bytes) :
     nextTlv (tlvBytes t ++ rest) = some (some (t, (tlvBytes t).length)) := by
@@ -197,8 +209,8 @@ theorem nextTlv_rt (t : Tlv) (h : t.OK) (rest : Bytes) :
   unfold nextTlv
   simp only [htake, hdec, e1, e2, hbody, hlen]
   have c0 : ¬ (2 + (tlvDataBytes t).length + rest.length < 2) := by omega
-  have c1 : ¬ (2 + (tlvDataBytes t).length + rest.length < (tlvDataBytes t).length) := by omega
-  have c2 : ¬ ((tlvDataBytes t).length < (tlvDataBytes t).length) := by omega
+  have c1 : ¬ (2 + (tlvDataBytes t).length + rest.length < 2 + (tlvDataBytes t).length) := by omega
+  have c2 : ¬ (tlvType t = 8 ∧ getU8 (tlvDataBytes t) 0 = some 0) := fun hh => mgmt_len_ne0 t h hh.1 hh.2
   simp only [c0, c1, c2, if_false, tlvParseData_rt t h]
   simp [tlvBytes]
 
